@@ -136,7 +136,8 @@ func (w *World) harnessAPI(t *Thread, f *Frame, name string, args []Val) (Val, b
 		t.yieldAt = args[0].(string)
 		w.retBlock(f)
 		return nil, true
-	case "vpYieldLazy":
+	case "vpYieldLazy", "vpYieldLazyOps":
+		t.lazyOps = name == "vpYieldLazyOps"
 		// parked until chosen at a store-visible point (another thread at a yield, or a quiescent instant)
 		// or until maxWait has elapsed; does not keep the clock from advancing
 		tm := w.newTimer(add(w.now, args[1]), "lazy:"+args[0].(string))
